@@ -69,4 +69,19 @@ def riemann(E, N, how):
                 t = t / 2.0
             acc = t if acc is None else acc + t
         E.claim_eq('backward[%d]==dk/(2pi^2 r)*Sum\' k F sin(k(r-dr/2))' % i, bw[i], dk * acc / (2.0 * pi * pi * r[i]))
+    # a family of functions stacked as rows of one 2-D array is transformed row by row (along the grid axis)
+    stack = _np.empty((2, N), dtype=f.dtype)
+    for n in range(N):
+        stack[0, n] = f[n]; stack[1, n] = F[n]
+    fw2 = D.to_fourier(stack); bw2 = D.to_real(stack)
+    E.claim_true('stacked-shape', _np.shape(fw2) == (2, N) and _np.shape(bw2) == (2, N))
+    if _np.shape(fw2) == (2, N) and _np.shape(bw2) == (2, N):
+        for n in range(N):
+            E.claim_eq('stacked-forward-row0[%d]' % n, fw2[0, n], fw[n])
+            E.claim_eq('stacked-backward-row1[%d]' % n, bw2[1, n], bw[n])
+    # integer-valued input (an indicator function) is transformed like the same values as floats
+    fi = _np.arange(1, N + 1)
+    gi = D.to_fourier(fi); gf = D.to_fourier(fi.astype(float) if not E.sym else _np.array([E.const(float(v)) for v in fi], dtype=object))
+    for n in range(N):
+        E.claim_eq('integer-input[%d]' % n, gi[n], gf[n])
     E.claim('canary-forward-prefactor-2pi', E.eq(fw[0], 2.0 * pi * dr * sum((r[n] * f[n] * E.sin(k[0] * (r[n] - dr / 2.0)) for n in range(1, N)), r[0] * f[0] * E.sin(k[0] * (r[0] - dr / 2.0))) / k[0]), canary=True)
